@@ -108,7 +108,93 @@ def resplit_probe(ctx, n: int) -> None:
             rep.count(f"resplit:rejected:{type(ex).__name__}")
 
 
+def fine_weak_case(rep, r: dict) -> None:
+    """weak magnets split finely (piece strength*length^2 far below that of the whole), and a resolution given in another
+    dtype than the element's: pieces keep the element's dtype, and track like the whole"""
+    import numpy as np
+    import torch
+    import elements as E
+    import lattices as LT
+    from fals import C16 as F16
+    p, En, P = r["params"], r["energy"], np.array(r["particles"], dtype=float)
+    dt = {"float32": torch.float32, "float64": torch.float64}
+    el = E._build(p, dtype=dt[r["dtype"]])
+    res = torch.tensor(r["resolution"], dtype=dt[r["res_dtype"]]) if r["res_dtype"] != "python" else r["resolution"]
+    cls = p["cls"]
+    try:
+        pieces = el.split(res)
+    except Exception as e:  # noqa: BLE001
+        if r["res_dtype"] == "python":
+            return          # (a Python float is not the documented argument type)
+        rep.fail("falsifier", f"C16|{cls}.split|{r['tag']}|raises", f"{cls}.split(resolution of dtype {r['res_dtype']}) on a {r['dtype']} element: "
+                 f"{type(e).__name__}: {e}", r)
+        return
+    bad = [str(q.length.dtype) for q in pieces if q.length.dtype != dt[r["dtype"]]]
+    if bad:
+        rep.fail("falsifier", f"C16|{cls}.split|resolution dtype {r['res_dtype']} on {r['dtype']}|dtype", f"{cls} ({r['dtype']}) split with a "
+                 f"{r['res_dtype']} resolution: pieces are {bad[0]}", r)
+        return
+    if r["dtype"] != "float64" or (cls in F16.SPLITTABLE and cls not in F16.TRACK_EQ):
+        return          # (correctors: only the total deflection is claimed, fals/C16.py checks it)
+    for bt in ("ParticleBeam", "ParameterBeam"):
+        b = LT.particle_beam(P, En) if bt == "ParticleBeam" else LT.parameter_beam_from(P, En)
+        d = LT.beams_differ(F16.fold(pieces, b), el.track(b), rtol=1e-8)
+        if d is not None:
+            rep.fail("falsifier", f"C16|{cls}.split|{r['tag']}|track {bt}", f"{cls} ({', '.join(f'{k}={v!r}' for k, v in p.items() if k != 'cls')}) split "
+                     f"into {len(pieces)} pieces: pieces vs whole ({bt}): {d}", r)
+            return
+
+
+def fine_weak_probe(ctx, n: int) -> None:
+    import elements as E
+    import lattices as LT
+    rep, rng = ctx.report, ctx.rng
+    for i in range(n):
+        cls = ["Quadrupole", "Quadrupole", "Dipole", "Drift", "Solenoid"][i % 5]
+        p = LT.tame(E.gen_params(rng, cls))
+        if p["L"] == 0.0:
+            p["L"] = 0.5
+        weak = rng.random() < 0.7
+        if weak:
+            for k in ("k1", "k", "angle"):
+                if k in p:
+                    p[k] = float(p[k]) * 10.0 ** float(-rng.uniform(1.0, 4.0))
+        npieces = int(E.pick(rng, 3, 17, 60, 150))
+        r = {"kind": "fine_weak", "params": p, "energy": float(E.energy(rng)), "particles": LT.gen_particles(rng, 5).tolist(),
+             "resolution": float(p["L"]) / (npieces - 0.5), "dtype": E.pick(rng, "float64", "float64", "float32"),
+             "res_dtype": E.pick(rng, "float64", "float32", "float64"), "tag": ("weak" if weak else "normal") + f", {'>=50' if npieces >= 50 else '<50'} pieces"}
+        rep.fals_cases += 1
+        rep.count(f"probe:fine-weak:{cls}:{r['dtype']}/{r['res_dtype']}")
+        rep.case(("fine_weak", cls, r["tag"], r["dtype"], r["res_dtype"]), None)
+        try:
+            fine_weak_case(rep, r)
+        except Exception as ex:  # noqa: BLE001
+            rep.count(f"fine-weak:rejected:{type(ex).__name__}")
+
+
+def dtype_grid(ctx) -> None:
+    """every splittable class x element dtype x resolution dtype (the combinations are few: all of them, every run)"""
+    import elements as E
+    import lattices as LT
+    rep, rng = ctx.report, ctx.rng
+    for cls in ("Drift", "Quadrupole", "Dipole", "RBend", "Solenoid", "HorizontalCorrector", "VerticalCorrector", "Undulator", "Cavity"):
+        for dtn in ("float32", "float64"):
+            for rdt in ("float32", "float64"):
+                p = LT.tame(E.gen_params(rng, cls))
+                p["L"] = 0.9
+                r = {"kind": "fine_weak", "params": p, "energy": 1e8, "particles": LT.gen_particles(rng, 4).tolist(), "resolution": 0.25,
+                     "dtype": dtn, "res_dtype": rdt, "tag": "dtype grid"}
+                rep.fals_cases += 1
+                rep.count("probe:split-dtype-grid")
+                try:
+                    fine_weak_case(rep, r)
+                except Exception as ex:  # noqa: BLE001
+                    rep.count(f"fine-weak:rejected:{type(ex).__name__}")
+
+
 def run(ctx) -> None:
+    dtype_grid(ctx)
+    fine_weak_probe(ctx, ctx.n(30, 600))
     resplit_probe(ctx, ctx.n(108, 1800))
     run_split_correspondence(ctx, "C16", ctx.n(80, 2000))
     if F is not None:
@@ -118,6 +204,8 @@ def run(ctx) -> None:
 def corpus_case(ctx, r: dict) -> None:
     if r.get("kind") == "resplit":
         return resplit_case(ctx.report, r)
+    if r.get("kind") == "fine_weak":
+        return fine_weak_case(ctx.report, r)
     if F is not None and hasattr(F, "corpus_case"):
         F.corpus_case(ctx, r)
 
